@@ -87,6 +87,17 @@ def check(repo, tier="quick"):
     rule_h(repo, res, m)
     res.floor("C07.h", 40)
     version_logging_rule(repo, res, "C07.c")
+    # the offsets recorded while serialising and the seeks that patch them are in one coordinate system (C20.g)
+    from . import c20 as _c20
+    from ..core import class_methods as _cm
+    from ..report import Ob as _Ob
+
+    _rm, _rd = repo.cls(_c20.IO + ":BitstreamReader")
+    _wm, _wr = repo.cls(_c20.IO + ":BitstreamWriter")
+    _sub = Result("C20")
+    _c20.rule_g(repo, _sub, _cm(_rd), _cm(_wr), _rm.rel)
+    for _o in _sub.obs:
+        res._add(_Ob("C07.e", "%s/%s" % (_o.rule, _o.key), _o.where, _o.status, _o.detail, _o.by, _o.path))
     from .. import globals_state, lints
 
     globals_state.rule(repo, res, "C07.g", ["bitstream.vc2_autofill"], what="the values filled in for one stream")
